@@ -1,7 +1,7 @@
 """C05 -- effect-trace obligations; see contracts/traces.py for the obligation definitions."""
 from contracts import traces, c03
 
-ALWAYS_STANDIN = False
+ALWAYS_STANDIN = True       # contending clients and paused iterations run natively on every change
 POLS = ['least-recently-stored', 'least-recently-used']
 
 
